@@ -94,6 +94,12 @@ Init == /\ \/ \E mk \in Markers, d \in EdgeDays, t \in SmallTimes, o \in {0, 0 -
                     \/ c = [To(IsoText(d, t) \o sfx) EXCEPT !.flags = @ @@ [warm |-> w]]
                     \/ c = [To(SubSeq(IsoText(d, 0), 1, 10)) EXCEPT !.flags = @ @@ [warm |-> w]]
                     \/ c = [From(d, t, <<>>, FALSE, <<43, 48, 49, 48, 48>>, TRUE) EXCEPT !.flags = @ @@ [warm |-> w]]
+           \* the same picture text rendered first for another offset (one that has no military letter, or a fractional one) and then
+           \* for a whole-hour offset: what the first rendering leaves behind for the picture must not change the second
+           \/ \E pic \in { <<91, 90, 90, 93>>, <<91, 122, 90, 93>>, <<91, 90, 93>>, <<91, 72, 48, 49, 93, 58, 91, 109, 48, 49, 93, 32, 91, 90, 90, 93>>, <<91, 122, 93, 32, 91, 90, 90, 93, 32, 91, 90, 48, 93>> },
+                 wtz \in { <<43, 48, 53, 51, 48>>, <<43, 49, 51, 48, 48>>, <<45, 48, 57, 51, 48>> }, o \in {0, 300, 0 - 720, 60} :
+                    c = [From(D(2018, 6, 15), 45296789, pic, TRUE, OffText(o), TRUE) EXCEPT !.flags = @ @@
+                            [warm |-> <<36, 102, 114, 111, 109, 77, 105, 108, 108, 105, 115, 40, 48, 44, 32, 34>> \o pic \o <<34, 44, 32, 34>> \o wtz \o <<34, 41>>]]
            \/ \E s \in {<<>>, <<120>>, <<50, 48, 49, 56, 45, 49, 51, 45, 48, 49>>, <<50, 48, 49, 56, 45, 48, 50, 45, 51, 48>>, <<50, 48, 49, 56, 45, 48, 50>>} : c = To(s)
         /\ done = FALSE
 Next == ~done /\ done' = TRUE /\ UNCHANGED c
